@@ -617,9 +617,30 @@ def rand_listener(rng, kind, addr):
     return add_listener(kind, addr, rng.choice([0, 0, 1]), rest, **over)
 
 
+def _key_escapes():
+    """does RequestHttpFrontend::to_string escape `;` inside its components? (read from the source: until it does,
+    two distinct frontends can share a key and the separator characters stay out of the generated cases)"""
+    try:
+        src = open(os.path.join(vlib.REPO, "command/src/request.rs")).read()
+        body = fn_body(strip_comments(src), "fmt", after="impl Display for RequestHttpFrontend") if False else src[src.index("impl Display for RequestHttpFrontend"):][:1500]
+        return "key_component(" in body
+    except Exception:
+        return False
+
+
+KEY_ESCAPES_SEPARATORS = _key_escapes()
+
+
 def rand_front_args(rng):
-    return [rng.randrange(3), rng.randrange(3), rng.choice([0, 0, 0, 1, 2, 2, 7]), rng.randrange(3),
-            rng.choice([0, 0, 1, 2, 3, 4, 4]), rng.choice([0, 1, 1, 2, 3]), rng.choice([0, 1, 2, 2, 2, 5]),
+    # hosts / paths / methods: the first pool entries mostly, the ones carrying `;` and `\\` (separator of the
+    # frontend key and its escape character) one time in five -- once the key escapes them (KEY_ESCAPES_SEPARATORS)
+    if not KEY_ESCAPES_SEPARATORS:
+        return [rng.randrange(3), rng.randrange(3), rng.choice([0, 0, 0, 1, 2, 2, 7]), rng.randrange(3),
+                rng.choice([0, 0, 1, 2, 3, 4, 4]), rng.choice([0, 1, 1, 2, 3]), rng.choice([0, 1, 2, 2, 2, 5]),
+                rng.choice([0, 0, 1, 2, 13, 40, 161, 323])]
+    return [rng.randrange(3), rng.choice([0, 1, 2, 0, 1, 2, 2, 5]), rng.choice([0, 0, 0, 1, 2, 2, 7]),
+            rng.choice([0, 1, 2, 0, 1, 2, 2, 2, 5, 5, 6, 7]),
+            rng.choice([0, 0, 1, 1, 2, 3, 4, 5, 6]), rng.choice([0, 1, 1, 2, 3]), rng.choice([0, 1, 2, 2, 2, 5]),
             rng.choice([0, 0, 1, 2, 13, 40, 161, 323])]
 
 
@@ -694,7 +715,7 @@ SHRINK_KEEP = ("oracle_cert", "oracle_hc", "save", "load", "diff", "replay", "du
 
 COMMON_ASSUMPTIONS = [
     "third-party behaviour is a parameter of the model and universally quantified in the theorems: PEM/X.509 parsing and SHA-256 (fingerprint, intrinsic names), validate_health_check_config, the string grammars of validate_sozu_id_header / validate_alpn_protocols (verdict passed as data, computed by the real validators at run time)",
-    "identifiers are modelled as numbers whose order is the Rust order on the generator's pools (equal-length cluster/backend/sticky ids, address pool sorted by SocketAddr order); the http front map key (RequestHttpFrontend::to_string) is modelled as the tuple (address, hostname, kind, path, method), of which it is an injective image as long as hostnames/paths/methods contain no ';'",
+    "identifiers are modelled as numbers whose order is the Rust order on the generator's pools (equal-length cluster/backend/sticky ids, address pool sorted by SocketAddr order); the http front map key (RequestHttpFrontend::to_string) is modelled as the tuple (address, hostname, kind, path, method), of which it is an injective image since 58d6d03 (`;` and the escape character are escaped inside the components; strings carrying them are in the pools and drawn as long as the source still escapes)",
     "the opaque payload of an object (every non-identity field: tags, redirect policy, headers, HSTS, TLS versions, answers ...) is compared by equality only; the driver maps the real struct back to the payload index by exhaustive search over the pool, printing POISON when there is none",
     "request_counts (the census) is outside the model and outside the compared state",
 ]
